@@ -30,8 +30,13 @@ NOT_UNDER_CONTRACT = ["primitives taking arrays, userdata, IO, regex, random", "
 SKIP = {
     "load_float": {"sin", "cos", "tan", "acos", "atan", "atan2", "sin_cos", "exp_m1", "ln_1p", "sinh", "cosh", "tanh", "acosh", "atanh",
                    "exp", "exp2", "ln", "log2", "log10", "cbrt", "hypot", "powf", "powi", "parse", "rem_euclid", "to_degrees", "to_radians", "sqrt", "mul_add", "recip"},
-    "load_string": {"append", "append_char", "from_char", "from_utf8", "as_bytes"},   # need a live Thread / GC array
-    "load_int": set(), "load_byte": set(), "load_char": set(),
+    # append/append_char/from_char/from_utf8/as_bytes need a live Thread / GC array; the pattern searchers
+    # (two-way string matcher) time out in CBMC even on <= 2-char strings (probed, 300 s)
+    "load_string": {"append", "append_char", "from_char", "from_utf8", "as_bytes",
+                    "contains", "find", "rfind", "trim_start_matches", "trim_end_matches"},
+    # unicode property tables (skip-search over large static arrays) time out in CBMC (probed, 300 s)
+    "load_char": {"is_alphabetic", "is_alphanumeric", "is_numeric"},
+    "load_int": set(), "load_byte": set(),
 }
 # entries with &str arguments: bounded (string length), everything else complete
 STR_BOUNDED = {"from_str_radix", "parse", "len", "is_empty", "is_char_boundary", "split_at", "contains", "starts_with", "ends_with", "find", "rfind",
